@@ -350,7 +350,7 @@ def eval_program(item):
         res["transitions"] += sum(len(r.events) for r in runs)
         traces = set()
         for r in runs:
-            if r.status in ("unsupported", "invariant", "budget"):
+            if r.status in ("unsupported", "invariant"):
                 res["harness"] = f"{r.status}: {r.detail}"
                 return res
             got = _norm(r.events)
